@@ -296,7 +296,7 @@ func calculateAmountCostLen(posting *ast.Posting, commodityFormats map[string]Nu
 
 	length += utf8.RuneCountInString(formatAmountQuantity(posting.Amount, commodityFormats))
 
-	if posting.Amount.Commodity.Position == ast.CommodityRight {
+	if posting.Amount.Commodity.Position == ast.CommodityRight && posting.Amount.Commodity.Symbol != "" {
 		length += 1 + utf8.RuneCountInString(commodityText(posting.Amount.Commodity.Symbol))
 	}
 
@@ -310,7 +310,7 @@ func calculateAmountCostLen(posting *ast.Posting, commodityFormats map[string]Nu
 			length += utf8.RuneCountInString(leftCommodityText(posting.Cost.Amount.Commodity.Symbol))
 		}
 		length += utf8.RuneCountInString(formatAmountQuantity(&posting.Cost.Amount, commodityFormats))
-		if posting.Cost.Amount.Commodity.Position == ast.CommodityRight {
+		if posting.Cost.Amount.Commodity.Position == ast.CommodityRight && posting.Cost.Amount.Commodity.Symbol != "" {
 			length += 1 + utf8.RuneCountInString(commodityText(posting.Cost.Amount.Commodity.Symbol))
 		}
 	}
